@@ -299,12 +299,17 @@ def run_shard(spec, ctx, acc):
         rt = codec.rtcm_frame(bytes.fromhex("3ed00003"))
         runs = [ack * 1200 + txt * 2, txt * 1200 + ack, rt * 1200 + ack + txt, bad * 1200 + ack,
                 (ack + txt + rt) * 420, codec.nmea_frame("GNTXT,01,01,02,A", good=False) * 1200 + ack]
+        # nested candidates: thousands of headers, each one's declared extent covering the
+        # next header (false syncs inside false syncs), then room for all of them and a frame
+        for hdr in (b"\xb5\x62\x01\x01\x08\x00", b"\xb5\x62\x05\x01\x02\x00", b"\xb5\x62\x77\x01\x00\x01",
+                    b"\xd3\x00\x08", b"\xd3\x00\x00", b"$GNGLL,1,", b"\xb5\x62", b"$G\xb5\x62\xd3\x00\x04"):
+            runs.append(hdr * 3000 + bytes(300) + ack + txt)
         for j, data in enumerate(runs):
             if j % 2 != spec["part"] % 2:
                 continue
             for pf in (7, 1, 2, 4, 0, 5):
                 for qe in (0, 1, 2):
-                    case = {"kind": "stream", "data": data, "has_rejected": j in (3, 5), "pipe": False,
+                    case = {"kind": "stream", "data": data, "has_rejected": j in (3, 5) or j >= 6, "pipe": False,
                             "opts": {"msgmode": 0, "validate": 1, "protfilter": pf, "parsing": True, "quitonerror": qe,
                                      "parsebitfield": 1, "handler": True}}
                     o = check(case)
